@@ -9,6 +9,7 @@ def evOf (s : String) : Option Ev :=
   if s == "lifetime" then some .lifetimeExpired
   else if s == "cancel_named" then some (.cancelCmd true)
   else if s == "cancel_other" then some (.cancelCmd false)
+  else if s == "cancel_empty" then some (.cancelCmd false)     -- a request that names nobody does not name this pilot
   else if s == "terminate" then some .terminateCmd
   else none
 
